@@ -154,6 +154,12 @@ func lookupPresence(b *ssa.BasicBlock, lookups []ssa.CallInstruction) string {
 func C03(ctx *core.Ctx, r *core.Report) {
 	c03Shared(ctx, r)
 	c18ExistingEntryIsNotEmpty(ctx, r)
+	borrowFrom(ctx, r, "C09", C09, "clearing-covers-kinds", "clearing-visits-every-member")
+	{
+		sub := core.NewReport("C04", r.Tier, r.Root, r.Seed)
+		definitionModuleOriginal(ctx, sub, scopeFuncs(ctx, "nodeutil", "json_rdr.go", "json_wtr.go"), 4)
+		r.Borrow(sub, "definition-module-original")
+	}
 	r.Explanation = "Shape of the merge algorithm in node/edit.go, decided on all paths: the strategy dispatch of editor.node and editor.list is total over the declared strategies with a not-implemented default; the conflict error is raised exactly on the insert branch when the lookup found something and the not-found error exactly on the update branch when it found nothing (error identities resolved through fc's variables and %w); the lookup (New=false) precedes every create (New=true); the strategy is handed unchanged to every recursive enter; defaults are materialised from `new`, the strategy and the editor's flag; each API entry point passes its own strategy and orientation. The `new` flag handed to the recursive enter is decided per item (not loop-carried); the reflection list nodes drop their cached index on every path from a container change to a return; the linear key search of slice-backed lists answers found only on the equal side of every key leaf comparison. Not decided: the merge result for any pair of trees, behaviour of node implementations."
 	consts := strategyConsts(ctx, r)
 	conflict := globalVar(ctx, "fc", "ConflictError")
